@@ -110,6 +110,28 @@ def shipped_leg(ctx, n):
             ctx.violation(MODULE, "shipped:values", args, {"case": case, "max_abs_diff": float(np.max(np.abs(got - want))), "scale": scale})
 
 
+def large_grid_leg(ctx):
+    """One injection on a frequency grid of more than 2^16 (sub-sampled) columns with smearing, the signal beyond column
+    2^16: the documented average written out by the harness, at a scale the model does not enumerate."""
+    import setigen as stg
+    F, T, fsub, n = 20000, 3, 4, 3
+    for asc in (True, False):
+        fr = stg.Frame(fchans=F, tchans=T, df=2.0, dt=1.0, fch1=1.0e6 if asc else 1.0e6 + (F - 1) * 2.0, ascending=asc, t_start=0.0, seed=1)
+        path = stg.constant_path(f_start=1.0e6 + 18000.3 * 2.0, drift_rate=3.1)
+        tp = stg.sine_t_profile(period=2.5, phase=0.2, amplitude=0.5, level=2.0)
+        fp = stg.gaussian_f_profile(width=7.0)
+        bp = stg.constant_bp_profile(level=0.8)
+        got = fr.add_signal(path, tp, fp, bp, integrate_f_profile=True, f_subsamples=fsub, doppler_smearing=True, smearing_subsamples=n)
+        fr2 = stg.Frame(fchans=F, tchans=T, df=2.0, dt=1.0, fch1=fr.fch1, ascending=asc, t_start=0.0, seed=1)
+        want = ad.documented_average(fr2, path, tp, fp, bp, False, False, True, 1, fsub, n)
+        ctx.evaluations += 1
+        ctx.mark(("large-grid", F, fsub, n, asc))
+        scale = float(np.max(np.abs(want)))
+        if got.shape != want.shape or np.max(np.abs(got - want)) > 1e-9 * scale:
+            ctx.violation(MODULE, "shipped:large_grid", {"F": F, "fsub": fsub, "smear": n, "asc": asc, "action": "AddSignalLargeGrid"},
+                          {"max_abs_diff": float(np.max(np.abs(got - want))), "scale": scale})
+
+
 def run_for(ctx, pid):
     ctx.assume("probe family (polynomial path, mod-3 time profile, triangle frequency profile, mod-2 bandpass) implemented "
                "over floats by the adapter with the same formulas as Injection.tla; comparison tolerance "
@@ -135,3 +157,4 @@ def run(ctx):
                          "draws of every shipped path/profile family; distinct = distinct (geometry, configuration)")
     run_for(ctx, "C01")
     shipped_leg(ctx, ctx.pick(300, 6000))
+    large_grid_leg(ctx)
